@@ -1,11 +1,340 @@
+import TinsModel.Crypto.Handshake
+import TinsModel.Crypto.Hash
+import TinsModel.Crypto.Aes
+import TinsModel.Crypto.Spec
 import Driver.Util
-/- line-protocol driver for property C09 (stub until the area is built) -/
+/- line-protocol driver for property C09 (WEP / TKIP / CCMP decryption): model mode and spec (oracle) mode -/
 namespace Driver.C09
-open Driver
+open Driver Tins.Crypto
 
-def step (st : Unit) (_line : String) : Unit × String := (st, "unimplemented")
-def specStep (st : Unit) (_line : String) : Unit × String := (st, "unimplemented")
-def initModel : Unit := ()
-def initSpec : Unit := ()
+/-- the external parsers reachable from `SNAP`: modelled for ARP and for ether types libtins does not know
+    (RawPDU); everything else is reported as `pdu9999` (the generators do not produce such payloads) -/
+def innerParser : InnerParser := fun eth rest =>
+  if eth == 0x0806 then
+    if rest.length < 28 then .error .malformedPacket
+    else .ok (.pdu 29 (if rest.length > 28 then some (rest.drop 28) else none))
+  else if eth == 0x888e then
+    match parseEapol rest with
+    | .ok (some e) => .ok (.eapol e)
+    | .ok none => .ok (if rest.getD 4 0 == 1 then .pdu 36 none else .none)
+    | .error e => .error e
+  else if [0x0800, 0x86dd, 0x8863, 0x8864, 0x8100, 0x88a8, 0x9100, 0x8847].contains eth then
+    .ok (.pdu 9999 none)
+  else .ok (.raw rest)
+
+def aes : Bytes → BlockFn := fun key => Aes.encryptBlockW (Aes.expandKey key)
+
+def prf : Bytes → Bytes → Bytes := Hash.hmacSha1
+def micf : Bool → Bytes → Bytes → Bytes := fun ccmp => if ccmp then Hash.hmacSha1 else Hash.hmacMd5
+
+structure MState where
+  wep : WepPasswords := []
+  wpa : Wpa2State := {}
+  /-- the stand-alone `RSNHandshakeCapturer` of the harness -/
+  cap : Capturer := {}
+
+def showSnapInner : SnapInner → String
+  | .none => "none"
+  | .raw b => "raw:" ++ toHex b
+  | .pdu t _ => s!"pdu{t}"
+  | .eapol _ => "pdu37"
+
+def showInner : Inner → String
+  | .none => "none"
+  | .raw b => "raw:" ++ toHex b
+  | .snap s => s!"snap:{s.dsap.toNat},{s.ssap.toNat},{s.control.toNat},{s.org},{s.eth}:" ++ showSnapInner s.inner
+
+def showFrame (r : String) (fr : Frame) : String :=
+  s!"r={r} prot={if fr.hdr.wep then 1 else 0} inner={showInner fr.inner}"
+
+def showKeys (keys : KeyTable) : String :=
+  if keys.isEmpty then "-" else
+  let items := keys.map fun (p, k) => (toHex p.1 ++ toHex p.2, s!"{toHex p.1}{toHex p.2}:{if k.isCcmp then 1 else 0}:{toHex k.ptk}")
+  let sorted := items.foldl (fun acc x =>
+    let (lo, hi) := acc.partition (fun y => y.1 ≤ x.1)
+    lo ++ [x] ++ hi) []
+  joinWith "," (sorted.map (·.2))
+
+def parseAddr (s : String) : Option Bytes :=
+  match parseHex s with
+  | some b => if b.length == 6 then some b else none
+  | none => none
+
+def showEvents (ev : List Event) : String :=
+  if ev.isEmpty then "-" else
+  joinWith "," (ev.map fun
+    | .apFound ssid b => s!"ap:{toHex ssid}:{toHex b}"
+    | .handshake ssid b c => s!"hs:{toHex ssid}:{toHex b}:{toHex c}")
+
+def showHandshakes (hs : List Handshake) : String :=
+  if hs.isEmpty then "-" else
+  joinWith "," (hs.map fun h =>
+    s!"{toHex h.a1}{toHex h.a2}/{h.msgs.length}" ++ String.join (h.msgs.map fun e => s!"/{(fnv e.serialize).toNat}"))
+
+def kvOf (ws : List String) (key : String) : Option String :=
+  ws.findSome? (fun w => if w.startsWith (key ++ "=") then some ((w.drop (key.length + 1)).toString) else none)
+
+def step (st : MState) (line : String) : MState × String :=
+  match words line with
+  | "case" :: _ => ({}, "case")
+  | "weppw" :: a :: k :: _ =>
+    match parseAddr a, parseHex k with
+    | some a, some k => ({ st with wep := insertKV st.wep a k }, "ok")
+    | _, _ => (st, "bad-op")
+  | "weprm" :: a :: _ =>
+    match parseAddr a with
+    | some a => ({ st with wep := eraseK st.wep a }, "ok")
+    | none => (st, "bad-op")
+  | ["aes", k, b] =>
+    match parseHex k, parseHex b with
+    | some k, some b => (st, "aes " ++ toHex (aes k b))
+    | _, _ => (st, "bad-op")
+  | "keys" :: _ => (st, "keys=" ++ showKeys st.wpa.keys)
+  | "ptk" :: a :: b :: k :: c :: _ =>
+    match parseAddr a, parseAddr b, parseHex k with
+    | some a, some b, some k =>
+      if k.length != 80 then (st, "throw invalid_handshake keys=" ++ showKeys st.wpa.keys) else
+      let st' := { st with wpa := { st.wpa with keys := addDecryptionKeys st.wpa.keys a b ⟨k, c == "1"⟩ } }
+      (st', "ok keys=" ++ showKeys st'.wpa.keys)
+    | _, _, _ => (st, "bad-op")
+  | "apdata" :: _psk :: ssid :: rest =>
+    match parseHex ssid, (kvOf rest "pmk").bind parseHex with
+    | some ssid, some pmk => ({ st with wpa := st.wpa.addApData ssid pmk }, "ok ev=-")
+    | _, _ => (st, "bad-op")
+  | "apaddr" :: _psk :: ssid :: a :: rest =>
+    match parseHex ssid, parseAddr a, (kvOf rest "pmk").bind parseHex with
+    | some ssid, some a, some pmk =>
+      match (st.wpa.addApData ssid pmk).addAccessPoint ssid a with
+      | some (w, ev) => ({ st with wpa := w }, "ok ev=" ++ showEvents ev)
+      | none => (st, "throw runtime_error")
+    | _, _, _ => (st, "bad-op")
+  | op :: f :: _ =>
+    if op != "wep" && op != "wpa" then (st, "bad-op") else
+    match parseHex f with
+    | none => (st, "bad-op")
+    | some f =>
+      match parseFrame innerParser f with
+      | .throw e => (st, "parse-throw " ++ e.name)
+      | .fault s i l => (st, s!"FAULT model {s} {i} {l}")
+      | .ok parsed =>
+        if op == "wep" then
+          match parsed with
+          | .data fr =>
+            match wepDecrypt innerParser st.wep fr with
+            | .ok (r, fr') => (st, showFrame (if r then "1" else "0") fr')
+            | .throw e => (st, showFrame ("throw:" ++ e.name) fr)
+            | .fault s i l => (st, s!"FAULT model {s} {i} {l}")
+          | _ => (st, "r=0 nodata")
+        else
+          -- the stand-alone capturer of the harness sees the frame first
+          let (cap2, c2) : Capturer × Bool := match parsed with
+            | .data fr => match fr.inner.findEapol with
+              | some e => st.cap.process fr.hdr e
+              | none => (st.cap, false)
+            | _ => (st.cap, false)
+          let hsTxt := s!" cap={if c2 then 1 else 0} hs={showHandshakes cap2.completed}"
+          let st := { st with cap := { cap2 with completed := [] } }
+          match wpa2Decrypt innerParser aes prf micf st.wpa parsed with
+          | .ok (w, r, p', ev) =>
+            let st' := { st with wpa := w }
+            let tail := hsTxt ++ s!" ev={showEvents ev} nk={w.keys.length}"
+            match p' with
+            | .data fr' => (st', showFrame (if r then "1" else "0") fr' ++ tail)
+            | _ => (st', s!"r={if r then 1 else 0} nodata" ++ tail)
+          | .throw e =>
+            let tail := hsTxt ++ s!" ev=- nk={st.wpa.keys.length}"
+            match parsed with
+            | .data fr => (st, showFrame ("throw:" ++ e.name) fr ++ tail)
+            | _ => (st, s!"r=throw:{e.name} nodata" ++ tail)
+          | .fault s i l => (st, s!"FAULT model {s} {i} {l}")
+  | _ => (st, "bad-op")
+
+def initModel : MState := {}
+
+/-! ### spec (oracle) mode — see `TinsModel/Crypto/Spec.lean`
+
+Each line is `<op> [@ <annotation>] ||| <implementation output>`.  Annotations (written by the generator):
+  `@ enc wep  <keyhex> <pthex> <snapok>`   the body is the WEP encapsulation of pt under key
+  `@ enc tkip <tkhex>  <pthex> <snapok>`   … TKIP … under temporal key tk (TA = addr2 of the frame)
+  `@ enc ccmp <tkhex>  <pthex> <snapok>`   … CCMP …
+`snapok` = 1 when pt is a well-formed LLC/SNAP payload (so the frame must be reported as decrypted).
+The oracle re-derives the body with the Lean reference encryptor (`generator-claim`), and demands
+  roundtrip : claim holds ∧ the key is installed for the frame's BSSID / {RA, TA} pair ∧ snapok → r=1, prot=0, payload = pt
+  reject    : r=1 → some installed key verifies the integrity tag of the body and the payload is its decapsulation
+  michael   : r=1 on a TKIP frame → the Michael value of the decapsulated MSDU verifies
+  throws    : decrypt never throws.
+-/
+
+structure OState where
+  wep : List (Bytes × Bytes) := []
+  keys : List ((Bytes × Bytes) × (Bytes × Bool)) := []
+
+def kv (ws : List String) (key : String) : Option String :=
+  ws.findSome? (fun w => if w.startsWith (key ++ "=") then some ((w.drop (key.length + 1)).toString) else none)
+
+def bytesLe (a b : Bytes) : Bool := toHex a ≤ toHex b
+def sortPair (a b : Bytes) : Bytes × Bytes := if bytesLe a b then (a, b) else (b, a)
+
+/-- the payload bytes an `inner=` description stands for, and whether the description is exact -/
+def innerBytes (s : String) : Option (Bytes × Bool) :=
+  match s.splitOn ":" with
+  | "snap" :: f :: rest =>
+    match (f.splitOn ",").map String.toNat? with
+    | [some d, some sa, some c, some org, some eth] =>
+      let hd : Bytes := [d.toUInt8, sa.toUInt8, c.toUInt8, (org / 65536).toUInt8, (org / 256 % 256).toUInt8, (org % 256).toUInt8,
+                         (eth / 256).toUInt8, (eth % 256).toUInt8]
+      match rest with
+      | ["none"] => some (hd, true)
+      | ["raw", h] => (parseHex h).map fun b => (hd ++ b, true)
+      | _ => some (hd, false)
+    | _ => none
+  | _ => none
+
+def payloadMatches (inner : String) (pt : Bytes) : Bool :=
+  match innerBytes inner with
+  | some (b, true) => b == pt
+  | some (b, false) => b == pt.take 8
+  | none => false
+
+def specBssid (h : Bytes) : Bytes :=
+  let toDS := h.getD 1 0 &&& 1 != 0
+  let fromDS := h.getD 1 0 &&& 2 != 0
+  if toDS && !fromDS then (h.drop 4).take 6
+  else if fromDS && !toDS then (h.drop 10).take 6
+  else (h.drop 16).take 6      -- IBSS: addr3.  WDS (both set) has no BSSID: libtins' choice (addr3) is taken as the API
+
+/-- the (host, access point) pair a frame's pairwise key belongs to: receiver and transmitter of an infrastructure
+    frame.  For IBSS and 4-address frames the documented API says nothing; libtins' convention (addr2, addr3) is taken. -/
+def specPair (h : Bytes) : Bytes × Bytes :=
+  let toDS := h.getD 1 0 &&& 1 != 0
+  let fromDS := h.getD 1 0 &&& 2 != 0
+  if toDS != fromDS then sortPair ((h.drop 4).take 6) ((h.drop 10).take 6)
+  else sortPair ((h.drop 10).take 6) ((h.drop 16).take 6)
+
+def decapWith (cipher : String) (key : Bytes) (h body : Bytes) : Option (Bytes × Option Bytes) :=
+  if cipher == "wep" then (Spec.wepDecap key body).map fun m => (m, none)
+  else if cipher == "ccmp" then (Spec.ccmpDecap (aes ((key.drop 32).take 16)) h body).map fun m => (m, none)
+  else (Spec.tkipDecap ((key.drop 32).take 16) ((h.drop 10).take 6) body).map fun (m, mic) => (m, some mic)
+
+def judge (st : OState) (op : String) (frame : Bytes) (ann : List String) (out : String) : String :=
+  let ow := words out
+  if out.startsWith "parse-throw" || out.startsWith "r=0 nodata" then "ok" else
+  match kv ow "r", kv ow "prot", kv ow "inner" with
+  | some r, some prot, some inner =>
+    if r.startsWith "throw" then s!"violates throws {r}" else
+    let subtype := (frame.getD 0 0 >>> 4).toNat
+    if subtype ≥ 4 && subtype ≤ 7 || subtype ≥ 12 then "unspecified" else
+    let hl := Spec.hdrLen frame
+    if frame.length < hl then (if r == "1" then "violates reject short-frame" else "ok") else
+    let h := frame.take hl
+    let body := frame.drop hl
+    -- a frame that is not protected is none of the decrypters' business
+    if frame.getD 1 0 &&& 0x40 == 0 then
+      (if r == "1" then "violates unprotected-frame-reported-decrypted"
+       else if !body.isEmpty && inner == "none" then "violates unprotected-frame-damaged" else "ok") else
+    -- installed keys, as (cipher, key material) candidates
+    let cands : List (String × Bytes) :=
+      if op == "wep" then st.wep.map fun (_, k) => ("wep", k)
+      else st.keys.map fun (_, (k, c)) => (if c then "ccmp" else "tkip", k)
+    let keyFor : Option (String × Bytes) :=
+      if op == "wep" then (lookup st.wep (specBssid h)).map fun k => ("wep", k)
+      else (lookup st.keys (specPair h)).map fun (k, c) => (if c then "ccmp" else "tkip", k)
+    -- 1. the generator's claim, re-derived with the Lean reference encryptor
+    let claim : Option (Except String (String × Bytes × Bytes × Bool)) :=
+      match ann with
+      | ["enc", cipher, keyh, pth, ok] =>
+        match parseHex keyh, parseHex pth with
+        | some key, some pt =>
+          let good :=
+            if cipher == "wep" then Spec.wepEncap key (body.take 3) (body.getD 3 0) pt == body
+            else if cipher == "ccmp" then
+              Spec.ccmpEncap (aes key) h (Spec.ccmpPnOf body) (body.getD 3 0) pt == body
+            else
+              match Spec.tkipDecap key ((h.drop 10).take 6) body with
+              | some (m, mic) => m == pt && Spec.tkipEncap key ((h.drop 10).take 6) (Spec.tkipTscOf body) (body.getD 3 0) pt mic == body
+              | none => false
+          if good then some (.ok (cipher, key, pt, ok == "1")) else some (.error s!"violates generator-claim {cipher}")
+        | _, _ => some (.error "violates bad-annotation")
+      | _ => none
+    match claim with
+    | some (.error e) => e
+    | _ =>
+    -- 2. round trip
+    let rt : Option String :=
+      match claim, keyFor with
+      | some (.ok (cipher, key, pt, true)), some (kc, kk) =>
+        let same := kc == cipher && (if cipher == "wep" then kk == key else (kk.drop 32).take 16 == key)
+        if same && !(r == "1" && prot == "0" && payloadMatches inner pt) then
+          some s!"violates roundtrip {cipher} r={r} prot={prot}" else none
+      | _, _ => none
+    match rt with
+    | some e => e
+    | none =>
+    -- 3. reject / michael
+    if r == "1" then
+      let verified := cands.filterMap fun (c, k) =>
+        match decapWith c k h body with
+        | some (m, mic) => if payloadMatches inner m then some (c, k, m, mic) else none
+        | none => none
+      match verified with
+      | [] => "violates reject reported-decrypted-but-no-installed-key-verifies"
+      | (_, k, m, some mic) :: _ => if Spec.michaelVerifies k h m mic then "ok" else "violates tkip-michael"
+      | _ => if prot == "0" then "ok" else "violates still-marked-protected"
+    else "ok"
+  | _, _, _ => "violates unparsable-output"
+
+def specStep (st : OState) (line : String) : OState × String :=
+  match line.splitOn " ||| " with
+  | [opl, out] =>
+    let (opw, ann) := match (words opl).span (· != "@") with
+      | (a, _ :: b) => (a, b)
+      | (a, []) => (a, [])
+    match opw with
+    | "case" :: _ => ({}, "ok")
+    | "apdata" :: _ => (st, "ok")
+    | "apaddr" :: _ => (st, "ok")
+    | ["weppw", a, k] =>
+      match parseAddr a, parseHex k with
+      | some a, some k => ({ st with wep := insertKV st.wep a k }, "ok")
+      | _, _ => (st, "unspecified")
+    | ["weprm", a] =>
+      match parseAddr a with
+      | some a => ({ st with wep := eraseK st.wep a }, "ok")
+      | none => (st, "unspecified")
+    | ["ptk", a, b, k, c] =>
+      match parseAddr a, parseAddr b, parseHex k with
+      | some a, some b, some k =>
+        if k.length != 80 then (st, if out.startsWith "throw invalid_handshake" then "ok" else "violates ptk-size-not-rejected")
+        else ({ st with keys := insertKV st.keys (sortPair a b) (k, c == "1") }, "ok")
+      | _, _, _ => (st, "unspecified")
+    | ["keys"] =>
+      match ann with
+      | ["expect", entry] =>
+        match kv (words out) "keys" with
+        | some ks => (st, if (ks.splitOn ",").contains entry then "ok" else "violates learned-key-missing-or-wrong")
+        | none => (st, "violates unparsable-output")
+      | _ => (st, "ok")
+    | [op, f] =>
+      if op != "wep" && op != "wpa" then (st, "unspecified") else
+      match parseHex f with
+      | some frame =>
+        match ann with
+        | ["learn", a, b, k, c] =>
+          -- a valid handshake history for a known network ends here: the pair's keys must now be known
+          match parseAddr a, parseAddr b, parseHex k with
+          | some a, some b, some k =>
+            let st' := { st with keys := insertKV st.keys (sortPair a b) (k, c == "1") }
+            let ev := (kv (words out) "ev").getD ""
+            (st', if (ev.splitOn ",").any (·.startsWith "hs:") then "ok" else "violates keys-not-learned")
+          | _, _, _ => (st, "violates bad-annotation")
+        | ["nolearn"] =>
+          let ev := (kv (words out) "ev").getD ""
+          (st, if (ev.splitOn ",").any (·.startsWith "hs:") then "violates keys-learned-with-wrong-psk" else "ok")
+        | _ => (st, judge st op frame ann out)
+      | none => (st, "unspecified")
+    | _ => (st, "unspecified")
+  | _ => (st, "bad-line")
+
+def initSpec : OState := {}
 
 end Driver.C09
